@@ -90,12 +90,20 @@ class Walker(Monitor):
             seen.add(key)
             explored += 1
             self._explore(walker, items)
+            # the walkers of event handlers 2..n are deep copies, the walkers of a resumed run went through dill
+            import copy
+            import dill
+            clone = copy.deepcopy((walker, [item for item, _ in items]))
+            self._explore(clone[0], [(c, rate) for c, (_, rate) in zip(clone[1], items)], "deep_copy")
+            loaded = dill.loads(dill.dumps((walker, [item for item, _ in items])))
+            self._explore(loaded[0], [(c, rate) for c, (_, rate) in zip(loaded[1], items)], "dill_round_trip")
 
-    def _explore(self, walker, items):
+    def _explore(self, walker, items, variant="original"):
         ctx = self.ctx
         total = sum(rate for _, rate in items)
         if abs(walker.total_rate - total) > 1e-12 * max(total, 1e-300):
-            ctx.violation("C18", "total_rate_is_not_the_sum_of_rates", {"reported": walker.total_rate, "sum": total})
+            ctx.violation("C18", "total_rate_is_not_the_sum_of_rates", {"reported": walker.total_rate, "sum": total,
+                                                                        "walker": variant})
         if total <= 0.0:
             return
         probes = {}
@@ -118,10 +126,11 @@ class Walker(Monitor):
             if abs(p - expected) > 1e-12:
                 ctx.violation("C18", "selection_probability_differs_from_rate_over_total",
                               {"probability": p, "expected": expected, "rate": rate, "total": total,
-                               "items": len(items)})
+                               "items": len(items), "walker": variant})
         ctx.notes["c18_largest_probability_deviation"] = max(ctx.notes.get("c18_largest_probability_deviation", 0.0),
                                                              worst)
         ctx.probes["c18_walkers_explored"] += 1
+        ctx.probes["c18_walkers_explored_" + variant] += 1
         ctx.probes["c18_cells_in_explored_walkers"] += len(items)
         ctx.probes["c18_zero_rate_cells"] += sum(1 for _, r in items if r == 0.0)
         ctx.probes["c18_forced_sample_cell_calls"] += evaluations
